@@ -197,7 +197,12 @@ var extShapes = func() []extShape {
 	}{{"utf8", U("Issued under the Example CPS")}, {"ia5", I("Issued under the Example CPS")}, {"visible", der.Str(der.TagVisible, "Issued under the Example CPS")}, {"bmp", der.Prim(der.TagBMP, bmpOf("Issued under the Example CPS"))},
 		{"utf8 200", U(strings.Repeat("t", 200))}, {"utf8 201", U(strings.Repeat("t", 201))}, {"utf8 200 two-byte", U(strings.Repeat("é", 200))}, {"bmp 201", der.Prim(der.TagBMP, bmpOf(strings.Repeat("t", 201)))},
 		{"utf8 control", U("line\x07bell\x1funit")}, {"utf8 c1 control", U("a\u0085b\u009fc")}, {"utf8 not nfc", U("école")}, {"utf8 nfc", U("école")}, {"utf8 empty", U("")}, {"utf8 lone lead byte", der.Prim(der.TagUTF8, []byte("abc\xc2"))},
-		{"utf8 truncated 3-byte", der.Prim(der.TagUTF8, []byte("abc\xe2\x82"))}, {"utf8 truncated 4-byte", der.Prim(der.TagUTF8, []byte("abc\xf0\x9f\x98"))}, {"printable", P("Issued under the Example CPS")}}
+		{"utf8 truncated 3-byte", der.Prim(der.TagUTF8, []byte("abc\xe2\x82"))}, {"utf8 truncated 4-byte", der.Prim(der.TagUTF8, []byte("abc\xf0\x9f\x98"))}, {"printable", P("Issued under the Example CPS")},
+		{"bmp ending in a high surrogate", der.Prim(der.TagBMP, []byte{0, 'H', 0, 'i', 0xd8, 0x3d})}, {"bmp ending in a low surrogate", der.Prim(der.TagBMP, []byte{0, 'H', 0, 'i', 0xde, 0x00})},
+		{"bmp lone surrogate in the middle", der.Prim(der.TagBMP, []byte{0, 'H', 0xd8, 0x3d, 0, 'i'})}, {"bmp complete surrogate pair", der.Prim(der.TagBMP, []byte{0, 'H', 0xd8, 0x3d, 0xde, 0x00})},
+		{"bmp only a high surrogate", der.Prim(der.TagBMP, []byte{0xdb, 0xff})}, {"bmp odd length", der.Prim(der.TagBMP, []byte{0, 'H', 0})}, {"bmp empty", der.Prim(der.TagBMP, nil)},
+		{"bmp control", der.Prim(der.TagBMP, []byte{0, 'a', 0, 7, 0, 0x85, 0, 'b'})}, {"bmp ffff fffe", der.Prim(der.TagBMP, []byte{0xff, 0xff, 0xff, 0xfe, 0, 0})},
+		{"visible control", der.Str(der.TagVisible, "a\x07b")}, {"ia5 control", I("a\x1fb\x7f")}, {"utf8 4 KiB", U(strings.Repeat("long text ", 420))}}
 	for _, pol := range []string{gen.OIDPolOV, gen.OIDPolAny, "1.3.6.1.4.1.55555.1.1"} {
 		pol := pol
 		for _, t := range texts {
@@ -482,4 +487,53 @@ func sctShapeCase(c *mon.Ctx, k int) (*mon.Obj, string) {
 
 func init() {
 	dirFams = append(dirFams, dirFam{name: "sct-lists", rank: 6, n: sctShapeSize, gen: sctShapeCase})
+}
+
+// ---- big-list family ----
+//
+// Lints that LIST what they found return details that grow with the input. Certificates with hundreds of offending
+// subjectAltName entries (bare public suffixes, underscores, wildcards on suffixes, repeats, reverse names) and
+// hundreds of policies make rule bodies return many kilobytes of details; whatever sits between the rule body and
+// the caller (result set, JSON, CLI) must carry them unaltered.
+
+var bigKinds = []struct {
+	label string
+	name  func(i int) string
+}{
+	{"bare public suffixes", func(i int) string { return []string{"co.uk", "com", "org.uk", "com.au", "net", "co.jp"}[i%6] }},
+	{"underscore names", func(i int) string { return fmt.Sprintf("h_%d.ex_ample%d.com", i, i%7) }},
+	{"wildcards on suffixes", func(i int) string { return []string{"*.co.uk", "*.com", "*.org"}[i%3] }},
+	{"case variants and repeats", func(i int) string { return []string{"www.example.com", "WWW.example.com", "Www.Example.Com"}[i%3] }},
+	{"reserved reverse names", func(i int) string { return fmt.Sprintf("%d.%d.168.192.in-addr.arpa", i%250, i%200) }},
+	{"invalid top-level domains", func(i int) string { return fmt.Sprintf("host%d.example.invalidtld%d", i, i%9) }},
+}
+
+var bigSizes = []int{120, 300, 700, 1500}
+
+func bigSize(c *mon.Ctx) int { return len(bigKinds) * len(bigSizes) }
+
+func bigCase(c *mon.Ctx, k int) (*mon.Obj, string) {
+	kd := bigKinds[k%len(bigKinds)]
+	n := bigSizes[k/len(bigKinds)%len(bigSizes)]
+	var gns []*der.Node
+	for i := 0; i < n; i++ {
+		gns = append(gns, gen.GNDNS(kd.name(i)))
+	}
+	s := gen.TLSLeaf(gen.D(2024, 3, 1), "www.example.com")
+	s.ReplaceExt(gen.ExtSAN(false, gns...))
+	if k%2 == 1 {
+		pol := der.Seq()
+		for i := 0; i < n/3; i++ {
+			pol.Children = append(pol.Children, der.Seq(der.OID(fmt.Sprintf("1.3.6.1.4.1.55555.%d.%d", i%40, i))))
+		}
+		pol.Children = append(pol.Children, der.Seq(der.OID(gen.OIDPolOV)))
+		s.ReplaceExt(der.MakeExt(gen.OIDExtPol, false, pol))
+	}
+	how := fmt.Sprintf("%d SAN entries: %s", n, kd.label)
+	o, _ := mon.ParseObj(0, "gen/big/"+how, s.DER())
+	return o, how
+}
+
+func init() {
+	dirFams = append(dirFams, dirFam{name: "big-lists", rank: 7, n: bigSize, gen: bigCase})
 }
